@@ -34,8 +34,9 @@ type spec struct {
 	Steps   int         `json:"steps"` // write+sync steps (each gives >=1 TXID)
 	Levels  int         `json:"levels"`
 	Cfg     hist.Config `json:"cfg"`
-	Variant string      `json:"variant"` // plain | compact | retention
+	Variant string      `json:"variant"` // plain | compact | retention | live (conc.go)
 	Tie     bool        `json:"tie"`     // second phase: a snapshot whose creation ms equals ts of its newest TXID
+	RunMs   int         `json:"run_ms,omitempty"` // live variant: duration of the concurrent workload
 }
 
 func init() {
@@ -46,7 +47,10 @@ func init() {
 			"After the history Replica.Restore(Timestamp=T) runs through a plain file client for T in {ts(n)-1ms, ts(n), ts(n)+1ms for every TXID n, midpoints, snapshot header times -1/0/+1 ms, 1 h before the first, 1 h after the last}; CalcRestoreTarget (the CLI gate) is called too and only counted. " +
 			"Oracle: success => bytes == image_n (independent overlay of archived level-0 files 1..n) for an n with ts(n) < T; when level-0 files 1..max are all present the result must be image_exp with exp = largest n such that ts(m) < T for all m <= n, and an error there is a violation when exp >= 1; results are non-decreasing in T; T <= ts(1) must fail; when level-0 files were removed an error is a violation only if a chain of surviving files all replicated before T exists (level 1..8 file a..b counts as replicated at ts(b), a snapshot at its header time) and a result older than the best such chain is only counted. " +
 			"Tie phase (half of the cases): a level-9 file 1..n rebuilt from image_n with header time == ts(n) is uploaded through file.ReplicaClient.WriteLTXFile (a snapshot taken in the same millisecond as its newest transaction) and the T grid is run again. " +
-			"distinct = hash(config, variant, op sequence); non-trivial = >=30 timestamp restores decided, >=8 TXIDs, and for compact/retention variants >=1 plan that used a level>=1 file",
+			"distinct = hash(config, variant, op sequence); non-trivial = >=30 timestamp restores decided, >=8 TXIDs, and for compact/retention variants >=1 plan that used a level>=1 file. " +
+			"Variant live (appended after the sequential cases; 4 quick / 30 thorough): for run_ms a writer (1-3 ms between small multi-table transactions, occasional 15-65 ms silences), litestream's own monitors (1-3 ms, no retention, no compaction), a snapshotter (DB.Snapshot every 10-30 ms) and two restorers run concurrently; replication goes through a proxy that sleeps 0-6 ms in LTXFiles/WriteLTXFile and numbers every completed publication, restores go through a second proxy that sleeps 0-8 ms before listings, with T = now - {0,1,2,5,20,100} ms, now + {3,10,30} ms or the header time of a recently published level-0 file -1/0/+1 ms. " +
+			"Afterwards (replica static) every recorded restore is judged on recorded values only (level-0 header times read back, T, page-wise hash of the output, publication numbers seen at call start): the output must be image_n with ts(n) < T and n >= the longest prefix of level-0 files replicated before T whose publication had completed before the call started; an error is accepted only when that prefix is empty (otherwise counted). Every level-9 file's header time S is read back and Restore(T in {ts(N), S+1ms, S}) on the static replica must give exactly the last transaction before T. " +
+			"live non-trivial = >=40 restores decided, >=50 TXIDs, >=5 restores during which a file was published; distinct = (seed, config)",
 		Assumptions: []string{"file replica only (mtime is the recorded replication time; never modified by the harness)", "wall clock does not step backwards during a case (checked: recorded timestamps must be non-decreasing, otherwise harness error)", "ltx.Decoder/Encoder trusted"},
 		Cases:       cases,
 		RunCase:     runCase,
@@ -78,6 +82,23 @@ func cases(run *vf.Run) ([]json.RawMessage, error) {
 		}
 		out = append(out, vf.Spec(s))
 	}
+	// live variant (conc.go): appended so that the indices above keep their meaning
+	nl, runMs := 4, 4500
+	if run.Tier == "thorough" {
+		nl, runMs = 30, 6000
+	}
+	for i := 0; i < nl; i++ {
+		rng := rand.New(rand.NewSource(vf.SubSeed(run.Seed, "C15-live", i)))
+		cfg := hist.RandomConfig(rng)
+		cfg.PageSize = []int{4096, 1024, 8192, 512, 2048, 16384, 65536, 32768}[i%8]
+		cfg.AutoVacuum = i % 3
+		cfg.MinCheckpointPageN = []int{50, 100, 200}[rng.Intn(3)]
+		cfg.MaxSyncLTXFiles = 0
+		if cfg.MaxSyncWALFrames > 0 {
+			cfg.MaxSyncWALFrames = 0
+		}
+		out = append(out, vf.Spec(spec{Seed: vf.SubSeed(run.Seed, "C15-live-case", i), Cfg: cfg, Variant: "live", RunMs: runMs}))
+	}
 	return out, nil
 }
 
@@ -101,6 +122,9 @@ func runCase(run *vf.Run, raw json.RawMessage, dir string) *vf.Result {
 	if err := json.Unmarshal(raw, &s); err != nil {
 		res.HarnessErr = err.Error()
 		return res
+	}
+	if s.Variant == "live" {
+		return runLive(s, dir, res)
 	}
 	rng := rand.New(rand.NewSource(s.Seed))
 	e, err := hist.NewEnv(dir, s.Cfg, rng, res)
